@@ -28,9 +28,9 @@ CLAIMS = {
                  "process-wide ghost memo, which is how the original defect was found and then repaired by a fix: commit); the traced "
                  "view handed to formulas returns the same leaves, wraps the same sub-nodes and records each leaf read; _run_formula "
                  "hands the formula a view of the system's current tree in both modes (shared with C01)."),
-        "note": ("What a view contains is C06's business. Element-wise reads through vector indexing (VectorialParameterNodeAtInstant and "
-                 "the as-of-date variant) work on numpy record arrays outside the array algebra and are NOT covered - listed as not "
-                 "decided, no stand-in counted. In-place edits of a tree after a read are not a documented route."),
+        "note": ("What a view contains is C06's business. Vector indexing: VectorialParameterNodeAtInstant.build_from_node and __getitem__ "
+                 "by a vector of names are under contract over a one-record structured-array model (three members, one nesting level); "
+                 "enum-member / non-string key vectors, group-valued results and the as-of-date variant are not decided. In-place edits of a tree after a read are not a documented route."),
         "technique": "contract-based deductive verification (representation invariant over a symbolic memo, ghost state for lru_cache + SMT)",
         "design_ref": "DESIGN.md section 4 C07",
     },
